@@ -61,6 +61,11 @@ func (x *Exec) callFunc(st *State, callee *ssa.Function, fnval *FnVal, args []Va
 		return
 	}
 	if !strings.HasPrefix(calleePkgPath(callee), modPath) {
+		if lm := pureStringsModel(key, callee.Signature, x.U()); lm != nil {
+			x.usedModels[key] = true
+			k(st, lm.run(x, st, args, site))
+			return
+		}
 		limitf("no model for library function %s (called at %s)", key, x.pos(site.Pos()))
 	}
 	ct := x.E.CS.get(key)
@@ -639,7 +644,15 @@ func (x *Exec) verify() (err error) {
 	}
 	if x.ct != nil && x.ct.Ghost != "" {
 		st.nobj++
-		o := &Obj{ID: st.nobj, Kind: objCell, Vals: []Val{{S: "Seq_Node", T: "Seq_Node.empty"}}}
+		seq := "Seq_Node"
+		for _, prm := range fn.Params {
+			if sig, ok := prm.Type().Underlying().(*types.Signature); ok && prm.Name() == x.ct.Ghost && sig.Params().Len() > 0 {
+				es := U.sortOf(sig.Params().At(0).Type())
+				seq = "Seq_" + es
+				U.seqs[seq] = es
+			}
+		}
+		o := &Obj{ID: st.nobj, Kind: objCell, Vals: []Val{{S: seq, T: seq + ".empty"}}}
 		st.objs[o.ID] = o
 		fr.vars["trace"] = Val{S: "@addr", A: &Addr{ObjID: o.ID}}
 	}
